@@ -370,18 +370,27 @@ namespace AIToolbox::MDP {
         // The expected value we can compute easily since each action has the
         // same probability of being chosen, but for the greedy one which is
         // more likely.
-        size_t maxA;
         double expectedQ = 0.0;
         double maxV = std::numeric_limits<double>::lowest();
         for (size_t aa = 0; aa < A; ++aa) {
             expectedQ += q_(s1, aa);
-            if (maxV < q_(s1, aa)) {
-                maxA = aa;
+            if (maxV < q_(s1, aa))
                 maxV = q_(s1, aa);
-            }
         }
         expectedQ *= epsilon_ / A;
         expectedQ += (1.0 - epsilon_) * maxV;
+
+        // The trace discount depends on the probability with which the
+        // (epsilon-greedy) target policy would have picked the action we
+        // actually took, so the greedy action we need is the one of s, not s1.
+        size_t maxA = 0;
+        double maxVs = std::numeric_limits<double>::lowest();
+        for (size_t aa = 0; aa < A; ++aa) {
+            if (maxVs < q_(s, aa)) {
+                maxA = aa;
+                maxVs = q_(s, aa);
+            }
+        }
 
         const auto error = alpha_ * ( rew + discount_ * expectedQ - q_(s, a) );
         const auto traceDiscount = discount_ * static_cast<Derived*>(this)->getTraceDiscount(s, a, s1, rew, maxA);
